@@ -239,6 +239,10 @@ func (fx *fexec) externModel(key string, x *ssa.Call, f *ssa.Function, args []Va
 		ev := fx.aminoUnmarshal(key, x, args, st, pos)
 		fx.panicPoint(st, not(eq(ev.T, intLit(0))), "panic", "amino.MustUnmarshal panics on undecodable input", pos)
 		return Val{Ty: rt}, true
+	case repoModule + "/tm2/pkg/amino.Marshal", repoModule + "/tm2/pkg/amino.MarshalSized", repoModule + "/tm2/pkg/amino.MarshalJSON":
+		return fx.aminoMarshal(key, x, args, st, false), true
+	case repoModule + "/tm2/pkg/amino.MustMarshal", repoModule + "/tm2/pkg/amino.MustMarshalSized":
+		return fx.aminoMarshal(key, x, args, st, true), true
 	case repoModule + "/tm2/pkg/amino.Unmarshal", repoModule + "/tm2/pkg/amino.UnmarshalSized",
 		repoModule + "/tm2/pkg/amino.UnmarshalAny", repoModule + "/tm2/pkg/amino.UnmarshalJSON":
 		return fx.aminoUnmarshal(key, x, args, st, pos), true
@@ -309,6 +313,12 @@ func externAssigns(vc *VC, key string, cc *ssa.CallCommon) (map[string]string, b
 				comp, srt := vc.elemComp(sl.Elem())
 				return map[string]string{comp: srt}, true
 			}
+		}
+	case repoModule + "/tm2/pkg/amino.Marshal", repoModule + "/tm2/pkg/amino.MarshalSized", repoModule + "/tm2/pkg/amino.MarshalJSON",
+		repoModule + "/tm2/pkg/amino.MustMarshal", repoModule + "/tm2/pkg/amino.MustMarshalSized":
+		if sl, ok := vc.under(cc.Signature().Results().At(0).Type()).(*types.Slice); ok {
+			comp, srt := vc.elemComp(sl.Elem())
+			return map[string]string{comp: srt}, true
 		}
 	case "bytes.Compare", "bytes.Equal", "bytes.HasPrefix", "errors.New", "fmt.Errorf", "fmt.Sprintf", "fmt.Sprint", "strings.Compare":
 		return map[string]string{}, true
